@@ -476,6 +476,7 @@ theorem Stmt.first (s : Stmt ε) (h : s.WF X) : ∃ t r, s.toks X = t :: r ∧ s
   | forS kw var eq lo to hi step body endT => exact ⟨kw, _, rfl, by rw [h.1]; decide +kernel⟩
   | foreachS kw e body endT => exact ⟨kw, _, rfl, by rw [h.1]; decide +kernel⟩
   | repeatS kw body untilT c => exact ⟨kw, _, rfl, by rw [h.1]; decide +kernel⟩
+  | switchS kw e whens els elseBody endT => exact ⟨kw, _, rfl, by rw [h.1]; decide +kernel⟩
 
 theorem Stmt.tree_ok (s : Stmt ε) (h : s.WF X) : okTree (s.tree X) = true := by
   cases s with
@@ -932,6 +933,195 @@ theorem rt_repeat (kw : Tok) (body : List (Stmt ε)) (untilT : Tok) (c : ε) (h 
     .ref nOqlExpr, gAssignment, .ref nExpr] rfl kw _ k _ hcm (by rw [hkw]; decide +kernel) hg
   simpa [Stmt.toks] using hfin
 
+/-! ## switch … when … endwhen … [else …] endswitch -/
+
+omit hX
+
+theorem val_table : ∀ x ∈ identKinds, x ∉ litKinds ∧ x ≠ Kind.Comment := by decide +kernel
+
+theorem parses_valitem (t : Tok) (h : valKindOK t.kind = true) (r : List Tok) :
+    Parses (.alt (.ref nLiteralBasic) (.ref nIdentifier)) (t :: r) r (terminal (.leaf t)) := by
+  by_cases hl : t.kind ∈ litKinds
+  · exact Parses.alt1 (parses_literalBasic t r hl)
+  · have hi : t.kind ∈ identKinds := by
+      simp only [valKindOK, Bool.or_eq_true, List.contains_iff_mem] at h
+      rcases h with h | h
+      · exact absurd h hl
+      · exact h
+    exact Parses.alt2 (Fails.ref (n := nLiteralBasic) (Fails.map (Fails.toks hl (val_table _ hi).2))) (parses_identifier t r hi)
+
+/-- value of `, v , w …` in a value list -/
+def valsVal : List (Tok × Tok) → Tree
+  | [] => Tree.list []
+  | (c, t) :: more => Tree.seq [.leaf c, Tree.list (terminal (.leaf t) :: more.map (fun ct => terminal (.leaf ct.2)))]
+
+theorem valsVal_kids (rest : List (Tok × Tok)) :
+    (if (valsVal rest).kind == "#seq" then ((valsVal rest).nth 1).kids else []) = rest.map (fun ct => terminal (.leaf ct.2)) := by
+  cases rest with
+  | nil => rfl
+  | cons ct more => obtain ⟨c, t⟩ := ct; rfl
+
+theorem val_tail (rest : List (Tok × Tok)) (hwf : valsWF rest) (k : List Tok) (hk : CStop k) :
+    Parses (.ifTok [Kind.Comma] (.ref nValueRec) (.eps (Tree.list []))) (commaToks rest ++ k) k (valsVal rest) := by
+  induction rest with
+  | nil =>
+    cases k with
+    | nil => exact Parses.s_ifTok_nil Parses.eps
+    | cons t r =>
+      obtain ⟨h1, h2⟩ := hk t r rfl
+      exact Parses.s_ifTok_miss h2 (by simpa using h1) Parses.eps
+  | cons ct more ih =>
+    obtain ⟨c, t⟩ := ct
+    obtain ⟨hc, ht, hmore⟩ := hwf
+    have hitem := parses_valitem t ht (commaToks more ++ k)
+    have hrec : Parses (.ref nValueRec) (t :: (commaToks more ++ k)) k
+        (Tree.list (terminal (.leaf t) :: more.map (fun ct => terminal (.leaf ct.2)))) :=
+      Parses.ref (n := nValueRec) ((Parses.map (Parses.seq
+        (Parses.s_ifEof_cons (a := .tok Kind.Comma) (Parses.s_recover (m := .span) hitem)) (ih hmore))).s_to (by
+          have := valsVal_kids more
+          show Tree.list ((if (terminal (.leaf t)).isNone then [] else [terminal (.leaf t)]) ++
+            (if (valsVal more).kind == "#seq" then ((valsVal more).nth 1).kids else [])) = _
+          rw [this]
+          rfl))
+    exact Parses.s_ifTok_hit (ks := [Kind.Comma]) (b := .eps (Tree.list [])) (by rw [hc]; decide) (by rw [hc]; decide) hrec
+
+theorem parses_sepvalues (first : Tok) (rest : List (Tok × Tok)) (hf : valKindOK first.kind = true) (hr : valsWF rest)
+    (k : List Tok) (hk : CStop k) :
+    Parses gSeparatedValues (first :: (commaToks rest ++ k)) k (WhenVals.tree (.list first rest)) := by
+  have hitem := parses_valitem first hf (commaToks rest ++ k)
+  have htail := val_tail rest hr k hk
+  have hlist : Parses (sepListCtx (.alt (.ref nLiteralBasic) (.ref nIdentifier)) nValueRec) (first :: (commaToks rest ++ k)) k
+      (Tree.list ((usesIds first rest).map (fun t => terminal (.leaf t)))) :=
+    (Parses.map (Parses.s_dep_yes (Parses.s_recover (m := .silentAt) hitem) rfl htail)).s_to (by
+      have := valsVal_kids rest
+      show (if (terminal (.leaf first)).isNone then Tree.list []
+        else Tree.list (terminal (.leaf first) :: (if (valsVal rest).kind == "#seq" then ((valsVal rest).nth 1).kids else []))) = _
+      rw [this]
+      simp only [show (terminal (Tree.leaf first)).isNone = false from rfl, Bool.false_eq_true, ↓reduceIte, usesIds,
+        List.map_cons, List.map_map, Function.comp_def])
+  have hchk := Parses.s_check (p := fun l => !l.kids.isEmpty) (msg := "Empty list") hlist rfl
+  have hl : (lastD ((usesIds first rest).map (fun t => terminal (.leaf t))) (terminal (.leaf first))).rng =
+      (((usesIds first rest).getLast?).getD first).rng := by
+    simp only [lastD, List.getLast?_map]
+    cases (usesIds first rest).getLast? <;> rfl
+  exact (Parses.map hchk).s_to (by
+    show mk "set_literal" "set_literal" (Range.span (terminal (.leaf first)).rng
+      (lastD ((usesIds first rest).map (fun t => terminal (.leaf t))) (terminal (.leaf first))).rng)
+      ((usesIds first rest).map (fun t => terminal (.leaf t))) = _
+    rw [hl]
+    rfl)
+
+theorem parses_whenvals (vals : WhenVals) (h : vals.WF) (k : List Tok) (hk : SStop k) :
+    Parses gWhenExpr (vals.toks ++ k) k vals.tree := by
+  cases vals with
+  | range lo to hi =>
+    obtain ⟨hlo, hto, hhi⟩ := h
+    exact Parses.alt1 ((Parses.map (Parses.seqL (ParsesList.cons (parses_literalBasic lo _ hlo) (ParsesList.cons (Parses.tok hto)
+      (ParsesList.cons (parses_literalBasic hi k hhi) ParsesList.nil))))).s_to rfl)
+  | list first rest =>
+    obtain ⟨hf, hr⟩ := h
+    have hto : Fails gToOp (first :: (commaToks rest ++ k)) := by
+      by_cases hl : first.kind ∈ litKinds
+      · have hnext : Fails (.tok Kind.To) (commaToks rest ++ k) := by
+          cases rest with
+          | nil => exact hk.fails_tok _ (by decide +kernel)
+          | cons ct more =>
+            obtain ⟨c, t⟩ := ct
+            exact Fails.tok (by rw [hr.1]; decide) (by rw [hr.1]; decide)
+        exact Fails.map (Fails.seqL (pre := [.ref nLiteralBasic]) (ParsesList.cons (parses_literalBasic first _ hl) ParsesList.nil) hnext)
+      · have hi : first.kind ∈ identKinds := by
+          simp only [valKindOK, Bool.or_eq_true, List.contains_iff_mem] at hf
+          rcases hf with h | h
+          · exact absurd h hl
+          · exact h
+        exact Fails.map (Fails.seqL (pre := []) ParsesList.nil
+          (Fails.ref (n := nLiteralBasic) (Fails.map (Fails.toks hl (val_table _ hi).2))))
+    exact Parses.alt2 hto (parses_sepvalues first rest hf hr k (CStop.of_sstop hk))
+
+/-- every statement list inside the `when` blocks round-trips -/
+def WhenB.AllRT : WhenB ε → Prop
+  | .mk _ _ body _ => C06.AllRT X body
+
+def Whens.AllRT (ws : List (WhenB ε)) : Prop := ∀ w ∈ ws, w.AllRT X
+
+theorem parses_when (w : WhenB ε) (hwf : w.WF X) (hrt : w.AllRT X) (k : List Tok) :
+    Parses gWhenBlock (w.toks X ++ k) k (w.tree X) := by
+  obtain ⟨kw, vals, body, endT⟩ := w
+  obtain ⟨hkw, hv, hb, he⟩ := hwf
+  have hsb : SStop (Stmts.toks X body ++ endT :: k) := sstop_stmts X body hb _ (sstop_end k (by rw [he]; decide))
+  have hvals := parses_whenvals vals hv _ hsb
+  have hloop := until_loop X [Kind.EndWhen] nUntilEndWhen rfl (by decide) body hb hrt endT (by rw [he]; simp) k
+  have : Parses gWhenBlock (kw :: (vals.toks ++ (Stmts.toks X body ++ endT :: k))) k (WhenB.tree X (.mk kw vals body endT)) :=
+    (Parses.map (Parses.seqL (ParsesList.cons (Parses.tok hkw) (ParsesList.cons hvals (ParsesList.cons hloop ParsesList.nil))))).s_to rfl
+  simpa [WhenB.toks] using this
+
+theorem when_blocks (ws : List (WhenB ε)) (hwf : Whens.WF X ws) (hrt : Whens.AllRT X ws) (t : Tok) (r : List Tok)
+    (ht : t.kind ≠ Kind.When) (hc : t.kind ≠ Kind.Comment) :
+    Parses (.ref nWhenBlocks) (Whens.toks X ws ++ t :: r) (t :: r) (Tree.list (Whens.trees X ws)) := by
+  induction ws with
+  | nil =>
+    exact Parses.ref (n := nWhenBlocks) (Parses.s_ifEof_cons (a := .eps (Tree.list []))
+      (Parses.alt2 (Fails.map (Fails.seq1 (Fails.map (fails_kw_seqL t r _ _ ht hc)))) Parses.eps))
+  | cons w rest ih =>
+    have hw := parses_when X w hwf.1 (hrt w List.mem_cons_self) (Whens.toks X rest ++ t :: r)
+    have ih' := ih hwf.2 (fun x hx => hrt x (List.mem_cons_of_mem _ hx))
+    obtain ⟨t0, r0, h0⟩ : ∃ t0 r0, w.toks X ++ (Whens.toks X rest ++ t :: r) = t0 :: r0 := by
+      obtain ⟨kw, vals, body, endT⟩ := w
+      exact ⟨kw, _, rfl⟩
+    simp only [Whens.toks, Whens.trees, List.append_assoc]
+    rw [h0] at hw ⊢
+    exact Parses.ref (n := nWhenBlocks) (Parses.s_ifEof_cons (a := .eps (Tree.list []))
+      (Parses.alt1 ((Parses.map (Parses.seq hw ih')).s_to rfl)))
+
+include hX in
+theorem rt_switch (kw : Tok) (e : ε) (whens : List (WhenB ε)) (els : Option Tok) (elseBody : List (Stmt ε)) (endT : Tok)
+    (h : (Stmt.switchS kw e whens els elseBody endT).WF X) (hrtw : Whens.AllRT X whens) (hrte : AllRT X elseBody) :
+    StmtRT X (.switchS kw e whens els elseBody endT) := by
+  intro k hk
+  obtain ⟨hkw, he, hws, hels, heb, hend⟩ := h
+  obtain ⟨hw, _⟩ := exprOK_split X he
+  have hcm : kw.kind ≠ Kind.Comment := by rw [hkw]; decide
+  -- the tail: `[else …] endswitch`
+  have htail : ∃ t r, els.toList ++ (Stmts.toks X elseBody ++ endT :: k) = t :: r ∧ t.kind ≠ Kind.When ∧ t.kind ≠ Kind.Comment ∧
+      t.kind ∈ stmtEnds ∧
+      Parses gSwitchElse (t :: r) k
+        (Tree.seq [(match els with
+          | some t => mk "when" "when_block" (Range.span t.rng endT.rng) (Stmts.trees X elseBody)
+          | none => Tree.none), .leaf endT]) := by
+    cases els with
+    | some t =>
+      have hloop := until_loop X [Kind.EndSwitch] nUntilEndSwitch rfl (by decide) elseBody heb hrte endT (by rw [hend]; simp) k
+      have ht : t.kind = Kind.Else := hels
+      refine ⟨t, _, rfl, by rw [ht]; decide, by rw [ht]; decide, by rw [ht]; decide, ?_⟩
+      exact Parses.alt1 ((Parses.map (Parses.seqL (ParsesList.cons (Parses.tok ht) (ParsesList.cons hloop ParsesList.nil)))).s_to rfl)
+    | none =>
+      have hnil : elseBody = [] := hels
+      subst hnil
+      refine ⟨endT, k, by simp [Stmts.toks], by rw [hend]; decide, by rw [hend]; decide, by rw [hend]; decide, ?_⟩
+      exact Parses.alt2 (Fails.map (fails_kw_seqL endT k _ _ (by rw [hend]; decide) (by rw [hend]; decide)))
+        ((Parses.map (Parses.s_opt (Parses.tok hend))).s_to rfl)
+  obtain ⟨t, r, htr, htw, htc, hte, hse⟩ := htail
+  have hblocks := when_blocks X whens hws hrtw t r htw htc
+  have hst : SStop (Whens.toks X whens ++ t :: r) := by
+    cases whens with
+    | nil => exact sstop_end r hte
+    | cons w rest =>
+      obtain ⟨wk, vals, body, we⟩ := w
+      have : (WhenB.mk wk vals body we : WhenB ε).toks X = wk :: (vals.toks ++ (Stmts.toks X body ++ [we])) := rfl
+      simp only [Whens.toks, this, List.cons_append]
+      exact sstop_end _ (by rw [hws.1.1]; decide)
+  have hcond := hX.parses e hw _ hst.stop8
+  have hg : Parses gSwitch (kw :: (X.toks e ++ (Whens.toks X whens ++ t :: r))) k
+      (Stmt.tree X (.switchS kw e whens els elseBody endT)) :=
+    (Parses.map (Parses.seqL (ParsesList.cons (Parses.tok hkw) (ParsesList.cons hcond (ParsesList.cons hblocks
+      (ParsesList.cons hse ParsesList.nil)))))).s_to (by cases els <;> rfl)
+  have hfin := stmt_via 5 gSwitch [gRepeat, gComment, gUses, gConstDecl, gTypeDecl, gLocalVar, gControl,
+    .ref nOqlExpr, gAssignment, .ref nExpr] rfl kw _ k _ hcm (by rw [hkw]; decide +kernel) hg
+  rw [← htr] at hfin
+  simpa [Stmt.toks] using hfin
+
+variable (hX : X.Sound)
+
 /-! ## if … [elseif …]* [else …] endif -/
 
 omit hX
@@ -1223,6 +1413,16 @@ theorem stmt_rt : (s : Stmt ε) → s.WF X → StmtRT X s
     rt_for X hX kw var eq lo to hi step body endT h (stmts_rt body h.2.2.2.2.2.2.2.1)
   | .foreachS kw e body endT, h => rt_foreach X hX kw e body endT h (stmts_rt body h.2.2.2.1)
   | .repeatS kw body untilT c, h => rt_repeat X hX kw body untilT c h (stmts_rt body h.2.1)
+  | .switchS kw e whens els elseBody endT, h =>
+    rt_switch X hX kw e whens els elseBody endT h (whens_rt whens h.2.2.1) (stmts_rt elseBody h.2.2.2.2.1)
+theorem when_rt : (w : WhenB ε) → w.WF X → w.AllRT X
+  | .mk _ _ body _, h => stmts_rt body h.2.2.1
+theorem whens_rt : (ws : List (WhenB ε)) → Whens.WF X ws → Whens.AllRT X ws
+  | [], _ => fun _ hs => by cases hs
+  | w :: rest, h => fun x hx =>
+    match List.mem_cons.mp hx with
+    | .inl e => e ▸ when_rt w h.1
+    | .inr hx => whens_rt rest h.2 x hx
 theorem stmts_rt : (ss : List (Stmt ε)) → Stmts.WF X ss → AllRT X ss
   | [], _ => fun _ hs => by cases hs
   | s :: rest, h => fun x hx =>
@@ -2176,6 +2376,14 @@ theorem constWfb_iff (kw name eq lit : Tok) (ml : Option Tok) :
     constWfb kw name eq lit ml = true ↔ constWF kw name eq lit ml := by
   cases ml <;> simp [constWfb, constWF, and_assoc]
 
+theorem valsWfb_iff (rest : List (Tok × Tok)) : valsWfb rest = true ↔ valsWF rest := by
+  induction rest with
+  | nil => simp [valsWfb, valsWF]
+  | cons ct more ih => obtain ⟨c, t⟩ := ct; simp [valsWfb, valsWF, ih, and_assoc]
+
+theorem WhenVals.wfb_iff (v : WhenVals) : v.wfb = true ↔ v.WF := by
+  cases v <;> simp [WhenVals.wfb, WhenVals.WF, valsWfb_iff, and_assoc]
+
 theorem stepWfb_iff (st : Option (Tok × ε)) : stepWfb X st = true ↔ stepWF X st := by
   cases st with
   | none => simp [stepWfb, stepWF]
@@ -2198,6 +2406,13 @@ theorem Stmt.wfb_iff : (s : Stmt ε) → (s.wfb X = true ↔ s.WF X)
     simp [Stmt.wfb, Stmt.WF, Stmts.wfb_iff body, stepWfb_iff, and_assoc]
   | .foreachS kw e body endT => by simp [Stmt.wfb, Stmt.WF, Stmts.wfb_iff body, and_assoc]
   | .repeatS kw body untilT c => by simp [Stmt.wfb, Stmt.WF, Stmts.wfb_iff body, and_assoc]
+  | .switchS kw e whens els elseBody endT => by
+    cases els <;> simp [Stmt.wfb, Stmt.WF, Whens.wfb_iff whens, Stmts.wfb_iff elseBody, and_assoc]
+theorem WhenB.wfb_iff : (w : WhenB ε) → (w.wfb X = true ↔ w.WF X)
+  | .mk kw vals body endT => by simp [WhenB.wfb, WhenB.WF, Stmts.wfb_iff body, WhenVals.wfb_iff, and_assoc]
+theorem Whens.wfb_iff : (ws : List (WhenB ε)) → (Whens.wfb X ws = true ↔ Whens.WF X ws)
+  | [] => by simp [Whens.wfb, Whens.WF]
+  | w :: rest => by simp [Whens.wfb, Whens.WF, WhenB.wfb_iff w, Whens.wfb_iff rest]
 theorem Stmts.wfb_iff : (ss : List (Stmt ε)) → (Stmts.wfb X ss = true ↔ Stmts.WF X ss)
   | [] => by simp [Stmts.wfb, Stmts.WF]
   | s :: rest => by simp [Stmts.wfb, Stmts.WF, Stmt.wfb_iff s, Stmts.wfb_iff rest]
